@@ -136,12 +136,18 @@ class Cursor:
 #   ('dot', e, name) ('grp', e, name) ('idx', e, i) ('rng', e, i, j)
 
 def _real_value(text):
+    """value of a REAL literal.  The reference value is the IEEE double nearest to the decimal text (the front end's
+    REAL is a C double; ISO 10303-11 8.1.2 leaves the precision of an unconstrained REAL to the implementation):
+    two literals are the same value iff they denote the same double."""
     t = text.lower()
     mant, _, exp = t.partition("e")
     f = Fraction(mant if not mant.endswith(".") else mant + "0")
     if exp:
         f *= Fraction(10) ** int(exp)
-    return "%d/%d" % (f.numerator, f.denominator)
+    try:
+        return repr(float(f))
+    except OverflowError:
+        return "inf"
 
 
 def parse_expression(c):
@@ -380,7 +386,7 @@ def render(e, pieces=None):
     if k == "int":
         return str(e[1])
     if k == "real":
-        return "REAL(" + e[1] + ")"
+        return "REAL(" + e[1] + ")"     # e[1]: repr of the double
     if k == "str":
         if pieces is not None:
             pieces.append(e[2])
